@@ -17,133 +17,135 @@ import (
 // C18 - the query history file keeps the last N submitted queries in order.
 // State machine over sessions: load -> (previous|next|edit)* -> optional submit.
 
-func TestVerifC18_HistorySessions(t *testing.T) {
+func propC18HistorySessions(t *rapid.T) {
 	work := os.Getenv("VERIF_WORK")
 	if work == "" {
-		work = t.TempDir()
+		work = os.TempDir()
 	}
-	path := filepath.Join(work, "c18-history.txt")
-	rapid.Check(t, func(t *rapid.T) {
-		os.Remove(path)
-		max := rapid.IntRange(1, 5).Draw(t, "max")
-		model := &oracle.HistoryModel{Max: max}
-		initKind := rapid.SampledFrom([]string{"missing", "empty", "plain", "trailing-newline", "surrounded", "longer-than-limit"}).Draw(t, "init")
-		entryGen := rapid.StringMatching(`[a-c ]{1,3}`)
-		var content string
-		exists := initKind != "missing"
-		if exists {
-			k := 0
-			switch initKind {
-			case "plain", "trailing-newline", "surrounded":
-				k = rapid.IntRange(1, max).Draw(t, "k")
-			case "longer-than-limit":
-				k = rapid.IntRange(max+1, max+4).Draw(t, "k")
+	path := filepath.Join(work, fmt.Sprintf("c18-history-%d.txt", os.Getpid()))
+	os.Remove(path)
+	max := rapid.IntRange(1, 5).Draw(t, "max")
+	model := &oracle.HistoryModel{Max: max}
+	initKind := rapid.SampledFrom([]string{"missing", "empty", "plain", "trailing-newline", "surrounded", "longer-than-limit"}).Draw(t, "init")
+	entryGen := rapid.StringMatching(`[a-c ]{1,3}`)
+	var content string
+	exists := initKind != "missing"
+	if exists {
+		k := 0
+		switch initKind {
+		case "plain", "trailing-newline", "surrounded":
+			k = rapid.IntRange(1, max).Draw(t, "k")
+		case "longer-than-limit":
+			k = rapid.IntRange(max+1, max+4).Draw(t, "k")
+		}
+		var es []string
+		for i := 0; i < k; i++ {
+			es = append(es, entryGen.Draw(t, "e"))
+		}
+		content = strings.Join(es, "\n")
+		switch initKind {
+		case "trailing-newline", "longer-than-limit":
+			if k > 0 {
+				content += "\n"
 			}
-			var es []string
-			for i := 0; i < k; i++ {
-				es = append(es, entryGen.Draw(t, "e"))
-			}
-			content = strings.Join(es, "\n")
-			switch initKind {
-			case "trailing-newline", "longer-than-limit":
-				if k > 0 {
-					content += "\n"
+		case "surrounded":
+			content = "\n" + content + "\n\n"
+		}
+		if err := os.WriteFile(path, []byte(content), 0o600); err != nil {
+			t.Fatalf("VERIF-INFRA: %v", err)
+		}
+	}
+	model.LoadFile(content, exists)
+	nsessions := rapid.IntRange(1, 4).Draw(t, "sessions")
+	hitCap, revisited, submitted := false, false, 0
+	trace := []string{fmt.Sprintf("init=%s max=%d file=%q", initKind, max, content)}
+	for s := 0; s < nsessions; s++ {
+		h, err := NewHistory(path, max)
+		if err != nil {
+			t.Fatalf("NewHistory: %v", err)
+		}
+		// a new session loads exactly the stored entries: walking back from the
+		// scratch line visits them newest first and then stays on the oldest
+		sess := model.NewSession()
+		input := ""
+		steps := rapid.IntRange(0, 12).Draw(t, "steps")
+		editedAt := map[int]bool{}
+		pos := len(model.Entries)
+		for i := 0; i < steps; i++ {
+			switch rapid.SampledFrom([]string{"edit", "prev", "prev", "next"}).Draw(t, "op") {
+			case "edit":
+				input = rapid.StringMatching(`[a-c]{0,3}`).Draw(t, "input")
+				trace = append(trace, fmt.Sprintf("edit %q", input))
+				editedAt[pos] = true
+			case "prev":
+				h.override(input)
+				got := h.previous()
+				want := sess.Previous(input)
+				if pos > 0 {
+					pos--
 				}
-			case "surrounded":
-				content = "\n" + content + "\n\n"
-			}
-			if err := os.WriteFile(path, []byte(content), 0o600); err != nil {
-				t.Fatalf("VERIF-INFRA: %v", err)
+				if editedAt[pos] {
+					revisited = true
+				}
+				trace = append(trace, fmt.Sprintf("prev -> %q", got))
+				if got != want {
+					t.Fatalf("previous-history shows %q, expected %q\n%s", got, want, strings.Join(trace, "\n"))
+				}
+				input = got
+			case "next":
+				h.override(input)
+				got := h.next()
+				want := sess.Next(input)
+				if pos < len(model.Entries) {
+					pos++
+				}
+				if editedAt[pos] {
+					revisited = true
+				}
+				trace = append(trace, fmt.Sprintf("next -> %q", got))
+				if got != want {
+					t.Fatalf("next-history shows %q, expected %q\n%s", got, want, strings.Join(trace, "\n"))
+				}
+				input = got
 			}
 		}
-		model.LoadFile(content, exists)
-		nsessions := rapid.IntRange(1, 4).Draw(t, "sessions")
-		hitCap, revisited, submitted := false, false, 0
-		trace := []string{fmt.Sprintf("init=%s max=%d file=%q", initKind, max, content)}
-		for s := 0; s < nsessions; s++ {
-			h, err := NewHistory(path, max)
-			if err != nil {
-				t.Fatalf("NewHistory: %v", err)
+		before, _ := os.ReadFile(path)
+		if rapid.Bool().Draw(t, "submit") {
+			if err := h.append(input); err != nil {
+				t.Fatalf("append: %v", err)
 			}
-			// a new session loads exactly the stored entries: walking back from the
-			// scratch line visits them newest first and then stays on the oldest
-			sess := model.NewSession()
-			input := ""
-			steps := rapid.IntRange(0, 12).Draw(t, "steps")
-			editedAt := map[int]bool{}
-			pos := len(model.Entries)
-			for i := 0; i < steps; i++ {
-				switch rapid.SampledFrom([]string{"edit", "prev", "prev", "next"}).Draw(t, "op") {
-				case "edit":
-					input = rapid.StringMatching(`[a-c]{0,3}`).Draw(t, "input")
-					trace = append(trace, fmt.Sprintf("edit %q", input))
-					editedAt[pos] = true
-				case "prev":
-					h.override(input)
-					got := h.previous()
-					want := sess.Previous(input)
-					if pos > 0 {
-						pos--
-					}
-					if editedAt[pos] {
-						revisited = true
-					}
-					trace = append(trace, fmt.Sprintf("prev -> %q", got))
-					if got != want {
-						t.Fatalf("previous-history shows %q, expected %q\n%s", got, want, strings.Join(trace, "\n"))
-					}
-					input = got
-				case "next":
-					h.override(input)
-					got := h.next()
-					want := sess.Next(input)
-					if pos < len(model.Entries) {
-						pos++
-					}
-					if editedAt[pos] {
-						revisited = true
-					}
-					trace = append(trace, fmt.Sprintf("next -> %q", got))
-					if got != want {
-						t.Fatalf("next-history shows %q, expected %q\n%s", got, want, strings.Join(trace, "\n"))
-					}
-					input = got
+			trace = append(trace, fmt.Sprintf("submit %q", input))
+			if input != "" {
+				if len(model.Entries) >= max {
+					hitCap = true
 				}
-			}
-			before, _ := os.ReadFile(path)
-			if rapid.Bool().Draw(t, "submit") {
-				if err := h.append(input); err != nil {
-					t.Fatalf("append: %v", err)
-				}
-				trace = append(trace, fmt.Sprintf("submit %q", input))
-				if input != "" {
-					if len(model.Entries) >= max {
-						hitCap = true
-					}
-					sess.Submit(input)
-					submitted++
-					data, _ := os.ReadFile(path)
-					if string(data) != model.FileContent() {
-						t.Fatalf("history file holds %q, expected %q\n%s", data, model.FileContent(), strings.Join(trace, "\n"))
-					}
-				} else {
-					data, _ := os.ReadFile(path)
-					if string(data) != string(before) {
-						t.Fatalf("submitting an empty query changed the file from %q to %q\n%s", before, data, strings.Join(trace, "\n"))
-					}
+				sess.Submit(input)
+				submitted++
+				data, _ := os.ReadFile(path)
+				if string(data) != model.FileContent() {
+					t.Fatalf("history file holds %q, expected %q\n%s", data, model.FileContent(), strings.Join(trace, "\n"))
 				}
 			} else {
-				trace = append(trace, "abort")
 				data, _ := os.ReadFile(path)
 				if string(data) != string(before) {
-					t.Fatalf("a session without submit changed the file from %q to %q\n%s", before, data, strings.Join(trace, "\n"))
+					t.Fatalf("submitting an empty query changed the file from %q to %q\n%s", before, data, strings.Join(trace, "\n"))
 				}
 			}
+		} else {
+			trace = append(trace, "abort")
+			data, _ := os.ReadFile(path)
+			if string(data) != string(before) {
+				t.Fatalf("a session without submit changed the file from %q to %q\n%s", before, data, strings.Join(trace, "\n"))
+			}
 		}
-		nt := nsessions >= 2 && hitCap && revisited
-		vstat.Case("C18/sessions", strings.Join(trace, "|"), nt, "init="+initKind, fmt.Sprintf("sessions=%d", nsessions), fmt.Sprintf("submitted=%d", imin(submitted, 3)))
-		if nt && vstat.WantSample("C18/sessions") {
-			vstat.Sample("C18/sessions", trace)
-		}
-	})
+	}
+	nt := nsessions >= 2 && hitCap && revisited
+	vstat.Case("C18/sessions", strings.Join(trace, "|"), nt, "init="+initKind, fmt.Sprintf("sessions=%d", nsessions), fmt.Sprintf("submitted=%d", imin(submitted, 3)))
+	if nt && vstat.WantSample("C18/sessions") {
+		vstat.Sample("C18/sessions", trace)
+	}
+}
+
+func TestVerifC18_HistorySessions(t *testing.T) {
+	rapid.Check(t, propC18HistorySessions)
 }
